@@ -224,3 +224,29 @@ func genFrom(r *Rand, alphabet []string, maxLen int) string {
 	}
 	return sb.String()
 }
+
+// parallelMap runs f(i) for i in [0,n) on `workers` goroutines and returns the results in order.
+func parallelMap[T any](n, workers int, f func(i int) T) []T {
+	out := make([]T, n)
+	if workers < 1 {
+		workers = 1
+	}
+	ch := make(chan int)
+	done := make(chan struct{})
+	for w := 0; w < workers; w++ {
+		go func() {
+			for i := range ch {
+				out[i] = f(i)
+			}
+			done <- struct{}{}
+		}()
+	}
+	for i := 0; i < n; i++ {
+		ch <- i
+	}
+	close(ch)
+	for w := 0; w < workers; w++ {
+		<-done
+	}
+	return out
+}
